@@ -20,8 +20,8 @@ ENGINE = "cliworld/simkernel"
 
 def tier_params(tier):
     if tier == "thorough":
-        return {"cases": 6000, "wall_budget_s": 3000}
-    return {"cases": 320, "wall_budget_s": 600}
+        return {"cases": 60000, "wall_budget_s": 3300}
+    return {"cases": 1200, "wall_budget_s": 600}
 
 
 def gen_case(rng, params, index):
